@@ -229,7 +229,8 @@ META["C10"] = {
 }
 
 META["C17"] = {
-    "slice_s": 60,
+    "slice_s": 20,
+    "workers": 10,
     "budget": {"quick": 40, "thorough": 900},
     "stall_s": 90,
     "rule": "one run = generated schema + single-caller mutation history with fake-time gaps + a tracking configuration drawn per run (tracked subset, MaxRecords 1..12 (thorough ..40), TrackRejected, one of Called/Changed allow or block list, batch size 1..10) with the in-memory backend and one persistent backend (bbolt / badger / gorm+sqlite; all three in thorough runs) attached to the same machine, Sync() calls interleaved, then the full log, four state queries (Active / Inactive+HTime / Activated / Deactivated+HTime) and a Sync-visibility probe with the Sync-forked writer parked; 1 run in 6 is an Export/Import round trip instead; non-trivial = at least one record retained; distinct = distinct plans",
